@@ -358,7 +358,7 @@ def parse_statement(line):
         else:
             lhs, rhs = t.split(" = ", 1)
         # call terminator?  `callee(args) -> [return: bbN, unwind ...]`  (also `-> unwind continue`)
-        m = re.search(r"\) -> (\[.*\]|unwind .*)$", rhs)
+        m = re.search(r"\) -> (\[.*\]|unwind .*|bb\d+)$", rhs)  # `-> bbN` alone: a diverging call, bbN is its cleanup block
         if m:
             call = rhs[:m.start() + 1]
             tg = parse_targets(m.group(1)) if m.group(1).startswith("[") else {}
